@@ -418,24 +418,45 @@ func (s *Sched) loop(maxSteps int) (complete bool) {
 			s.err = &CheckerError{fmt.Sprintf("step horizon %d reached (livelock or unbounded script)", maxSteps)}
 			return false
 		}
-		c := s.decide(s, buf)
-		if c < 0 {
-			return false
+		// Purely local steps (a task starting, a task resuming after a rendezvous
+		// another task performed) commute with everything: take them at once.
+		// A single enabled alternative is no decision either.
+		c := -1
+		for i := range buf {
+			switch buf[i].T.pend.(type) {
+			case opStart, opResume:
+				c = i
+			}
+			if c >= 0 {
+				break
+			}
 		}
-		if c >= len(buf) {
-			s.err = &CheckerError{fmt.Sprintf("replay divergence: choice %d of %d at step %d", c, len(buf), s.steps)}
-			return false
+		forced := c >= 0
+		if c < 0 && len(buf) == 1 {
+			c, forced = 0, true
+		}
+		if !forced {
+			c = s.decide(s, buf)
+			if c < 0 {
+				return false
+			}
+			if c >= len(buf) {
+				s.err = &CheckerError{fmt.Sprintf("replay divergence: choice %d of %d at step %d", c, len(buf), s.steps)}
+				return false
+			}
 		}
 		a := buf[c]
 		// preemption accounting: switching away from a still-enabled running task
-		if s.running != nil && a.T != s.running && len(buf) > 0 && buf[0].T == s.running {
+		if !forced && s.running != nil && a.T != s.running && len(buf) > 0 && buf[0].T == s.running {
 			s.preempts++
 		}
 		if len(buf) > 255 {
 			s.err = &CheckerError{"more than 255 alternatives"}
 			return false
 		}
-		s.Choices = append(s.Choices, uint8(c))
+		if !forced {
+			s.Choices = append(s.Choices, uint8(c))
+		}
 		if s.KeepTrace {
 			s.Trace = append(s.Trace, Step{Task: a.T.Path, Name: a.T.Name, Op: a.T.pend.String(), Case: a.Case, NAlts: len(buf), Choice: c})
 		}
